@@ -1670,28 +1670,13 @@ def gen_input(node, code, codegen):
 
 @QvmCodeGen.generator_for(stmt.LocateStmt)
 def gen_locate_stmt(node, code, codegen):
-    if node.row is None:
-        code.add(('push%', -1))
-    else:
-        codegen.gen_code_for_node(node.row, code)
-        gen_code_for_conv(expr.Type.INTEGER, node.row, code, codegen)
-
-    if node.row is None:
-        code.add(('push%', -1))
-    else:
-        codegen.gen_code_for_node(node.col, code)
-        gen_code_for_conv(expr.Type.INTEGER, node.col, code, codegen)
-
-    if node.cursor is None:
-        code.add(('push%', -1))
-    else:
-        codegen.gen_code_for_node(node.cursor, code)
-        gen_code_for_conv(expr.Type.INTEGER, node.cursor, code, codegen)
-
-    code.add(
-        ('push%', -1),
-        ('push%', -1),
-    )
+    # every omitted argument is passed as -1
+    for arg in (node.row, node.col, node.cursor, node.start, node.stop):
+        if arg is None:
+            code.add(('push%', -1))
+        else:
+            codegen.gen_code_for_node(arg, code)
+            gen_code_for_conv(expr.Type.INTEGER, arg, code, codegen)
 
     code.add(('io', 'terminal', 'locate'))
 
